@@ -242,18 +242,28 @@ def convert_cone(key, val):
         return SurfaceCollection([(cone, 1)])
 
     pos = -(u_x * p_x + u_y * p_y + u_z * p_z)
+    # the axis-aligned planes are always oriented along the positive
+    # coordinate axis; if the cone axis is antiparallel to it, the nappe lies
+    # on the other side of the plane
+    side = -int(nappe)
     if u_x == 0 and u_y == 0:
         type_surface = T4S.PLANEZ
         param = [-pos / u_z]
+        if u_z < 0:
+            side = -side
     elif u_y == 0 and u_z == 0:
         type_surface = T4S.PLANEX
         param = [-pos / u_x]
+        if u_x < 0:
+            side = -side
     elif u_z == 0 and u_x == 0:
         type_surface = T4S.PLANEY
         param = [-pos / u_y]
+        if u_y < 0:
+            side = -side
     else:
         type_surface = T4S.PLANE
         param = [u_x, u_y, u_z, pos]
     plane = SurfaceT4(type_surface, param,
                       [f'aux plane for cone {key}'])
-    return SurfaceCollection([(cone, 1), (plane, -int(nappe))])
+    return SurfaceCollection([(cone, 1), (plane, side)])
